@@ -80,12 +80,17 @@ structure Env where
   urlParseOracle : Str → URL × Bool := fun _ => ({ isNil := true }, true)
   /-- `oidc.ParseToken s` = (the token, nil on failure; err ≠ nil) -/
   parseTokenOracle : Str → JwtToken × Bool := fun _ => ({ isNil := true }, true)
+  /-- `redis.ParseURL s`: err ≠ nil -/
+  redisParseURLOracle : Str → Bool := fun _ => true
   /-- `clock.Now()` during this evaluation -/
   now : Time := {}
 
 def Env.parseToken (env : Env) (s : Str) : JwtToken × Error :=
   let r := env.parseTokenOracle s
   (r.1, { isNil := !r.2 })
+
+/-- `redis.ParseURL s` = (options, err); the options are not looked at by the translated code -/
+def Env.redisParseURL (env : Env) (s : Str) : Unit × Error := ((), { isNil := !env.redisParseURLOracle s })
 
 def Env.urlParse (env : Env) (s : Str) : URL × Error :=
   let r := env.urlParseOracle s
@@ -105,6 +110,12 @@ def index (s sub : Str) : Int :=
   match indexOfSub sub s with
   | some n => (n : Int)
   | none => -1
+
+/-- `strings.Replace s old new 1`: the first instance of `old` (non-empty in the translated code) replaced by `new` -/
+def replaceFirst (s old new : Str) : Str :=
+  match indexOfSub old s with
+  | some n => s.take n ++ new ++ s.drop (n + old.length)
+  | none => s
 
 /-- a write through a pointer (`p.F = v`): a nil pointer panics -/
 def derefNil {α : Type} (isNil : Bool) (v : α) : M α :=
